@@ -214,6 +214,16 @@ class WCB(WC):
         return cls.from_key(json.loads(b.decode()))
 
 
+class WCM(WCB):
+    """Only some instances have a byte encoding (those with an even prefix
+    length): one class database then holds compressed and uncompressed keys."""
+
+    def to_bytes(self) -> bytes:
+        if len(self.prefix) % 2:
+            raise NotImplementedError
+        return super().to_bytes()
+
+
 # --------------------------------------------------------------------------
 # statistic transforms
 # --------------------------------------------------------------------------
@@ -498,9 +508,16 @@ class _Unary(_Settings, DisjointUnionStrategy):
     searcher record one-way equivalence edges."""
 
     two_way = True
+    equiv = True
 
     def _child_and_map(self, c: WC):
         raise NotImplementedError
+
+    def can_be_equivalent(self) -> bool:
+        # equiv=False: the strategy (conservatively) says that its unary rules are
+        # not equivalences; they are still two-way, so distinct classes share an
+        # equivalence label without the rule being folded into equivalence paths
+        return bool(self.equiv)
 
     def is_two_way(self, comb_class) -> bool:
         return bool(self.two_way)
@@ -530,11 +547,12 @@ class _Unary(_Settings, DisjointUnionStrategy):
 class Reduce(_Unary):
     """Drop patterns that contain another pattern as a factor."""
 
-    SETTINGS = ("xf", "two_way")
+    SETTINGS = ("xf", "two_way", "equiv")
 
-    def __init__(self, xf="id", two_way=True, **kw):
+    def __init__(self, xf="id", two_way=True, equiv=True, **kw):
         self.xf = xf
         self.two_way = bool(two_way)
+        self.equiv = bool(equiv)
         kw.setdefault("possibly_empty", False)
         super().__init__(**kw)
 
@@ -551,11 +569,12 @@ class Reduce(_Unary):
 class StatXf(_Unary):
     """Drop identically-zero statistics / merge equal ones / rename them."""
 
-    SETTINGS = ("xf", "two_way")
+    SETTINGS = ("xf", "two_way", "equiv")
 
-    def __init__(self, xf="dm", two_way=True, **kw):
+    def __init__(self, xf="dm", two_way=True, equiv=True, **kw):
         self.xf = xf
         self.two_way = bool(two_way)
+        self.equiv = bool(equiv)
         kw.setdefault("possibly_empty", False)
         super().__init__(**kw)
 
@@ -957,5 +976,5 @@ def build_pack(desc) -> StrategyPack:
 
 
 def build_class(desc, compressed=False) -> WC:
-    cls = WCB if compressed else WC
+    cls = {0: WC, 1: WCB, 2: WCM}[int(compressed)]
     return cls.from_key(desc)
